@@ -32,6 +32,8 @@ NEIGHBOURS = [
     "robots.txt", "robotsxtxt", "robots.txt2", "xrobots.txt", "nohup.out", "nohup.out.1", "gophermap2", "xgophermap",
     "note.abstract", "note.abstractx", "abstract", "note.keyboards", "note.keywords", "q.ask", "q.asked", "q.as", "m.3d", "m.3dx",
     "m.3", ".hidden", ".dotdir/", "a.askdir/", "libdir/", "plain.txt", "zeta", "Alpha", "beta.c", "note", "q", "m", "selfloop",
+    # pages with a title of their own (their entry gets its name from the file's content)
+    "titled.html", "titled.html", "Second page.html",
 ]
 PARENTS = ["", "d", "a.askb", "x~", ".cachex", "sub/lib", "libs"]
 # other configured ignore patterns (index 0 = the shipped one): literal blanks, '#', a character class, an anchored prefix,
@@ -151,6 +153,10 @@ def _spec(case):
         elif n.startswith("."):
             spec.append([pre + n, "f", "# dot file %s\n" % n])
             content[n] = "# dot file %s\n" % n
+        elif n.endswith(".html"):
+            body = "<html><head><title>Title of %s</title></head><body>x</body></html>\n" % n[:-5]
+            spec.append([pre + n, "f", body])
+            content[n] = body
         else:
             spec.append([pre + n, "f", "content of %s\n" % n])
             content[n] = "content of %s\n" % n
